@@ -17,7 +17,8 @@ func (i *SelectValuesRequestPlanner) Process(ctx *shared.PlannerContext) (sql.IS
 	}
 
 	main.Select(sql.NewSimpleCol("val", "val")).
-		AndWhere(sql.Eq(sql.NewRawObject("key"), sql.NewStringVal(i.Key)))
+		AndWhere(sql.Eq(sql.NewRawObject("key"), sql.NewStringVal(i.Key))).
+		GroupBy(sql.NewRawObject("val"))
 	if ctx.Limit > 0 {
 		main.OrderBy(sql.NewOrderBy(sql.NewRawObject("val"), sql.ORDER_BY_DIRECTION_ASC)).
 			Limit(sql.NewIntVal(ctx.Limit))
